@@ -48,7 +48,7 @@ var c05Subsets = [][]string{{"local"}, {"ntlm"}, {"kerberos"}, {"openid", "local
 
 var c05Auths = []string{"absent", "empty", "bare:NTLM", "bare:Negotiate", "bare:Basic", "short:NTL", "short:Basi", "short:Negotiat", "lower:ntlm", "lower:basic", "junk", "bearer",
 	"basic-right", "basic-right", "basic-wrong-pass", "basic-unknown-user", "basic-empty-pass", "basic-undecodable", "basic-nocolon", "basic-two-lines-junk-first", "basic-two-lines-right-first",
-	"ntlm-right", "ntlm-right", "ntlm-wrong-pass", "ntlm-unknown-user", "ntlm-type3-first", "ntlm-type3-other-conn", "ntlm-again-after-success", "ntlm-again-after-success", "ntlm-type1-only", "ntlm-garbage", "negotiate-ntlm-right", "negotiate-garbage", "xNTLM-prefix", "krb-valid", "krb-valid", "krb-foreign-key"}
+	"ntlm-right", "ntlm-right", "ntlm-wrong-pass", "ntlm-unknown-user", "ntlm-type3-first", "ntlm-type3-other-conn", "ntlm-again-after-success", "ntlm-again-after-success", "ntlm-unknown-user-empty-pass", "ntlm-type1-only", "ntlm-garbage", "negotiate-ntlm-right", "negotiate-garbage", "xNTLM-prefix", "krb-valid", "krb-valid", "krb-foreign-key"}
 
 func genC05(t *rapid.T) c05Case {
 	c := c05Case{Subset: rapid.SampledFrom(c05Subsets).Draw(t, "subset")}
@@ -355,6 +355,8 @@ func runC05(c c05Case) *Violation {
 			ntlmFlow("NTLM", r.User, pass+"x", false, false)
 		case "ntlm-unknown-user":
 			ntlmFlow("NTLM", "nobody", "pw", false, false)
+		case "ntlm-unknown-user-empty-pass":
+			ntlmFlow("NTLM", rapid_unknownUser(r.User), "", false, false)
 		case "ntlm-type3-first":
 			ntlmFlow("NTLM", r.User, pass, true, false)
 		case "ntlm-type3-other-conn":
@@ -658,4 +660,9 @@ func c05AgainAfterSuccess(in *gwproc.Inst, r c05Req, pass, type1 string, subset 
 	}
 	_ = ok
 	return nil
+}
+
+// rapid_unknownUser names an account the authentication backend does not know (derived from the case's user so that the case stays a pure function of its JSON).
+func rapid_unknownUser(u string) string {
+	return []string{"administrator", "root", "nobody", "Administrator"}[atoi(u)%4]
 }
